@@ -53,7 +53,9 @@ Theorem C02_closure_under_hold :
       w_keyf w' t = (if lent then w_keyf w t else false) /\
       (forall x, x <> t -> w_keyf w' x = w_keyf w x) /\
       (* the closure-entry marker comes right after the acquisition; afterwards only user events, then no acquisition *)
-      exists w2 evR, frame (emit w1 (EMark t 1)) w2 /\ w_trace w' = evR ++ w_trace w2 /\ Forall tail_ev evR.
+      exists w2 evR,
+        run nopw t (closure m (gitems s) body) w1 = ((if existsb is_cpanic body then OPanic else ODone VUnit), w2) /\
+        frame (emit w1 (EMark t 1)) w2 /\ w_trace w' = evR ++ w_trace w2 /\ Forall tail_ev evR.
 Proof. exact run_scoped_rest_quiet. Qed.
 
 (* ---------------------------------------------------------------- every history: guards of different threads exclude *)
